@@ -106,9 +106,9 @@ def get_facts(repo="/repo", slot="main"):
     if not os.path.exists(tmp) or os.path.getsize(tmp) < 1000:
         raise RuntimeError("rlfacts produced no fact file for %s (stale cargo cache?)\n%s" % (repo, r.stdout[-2000:]))
     os.replace(tmp, out)
-    # keep the cache small: drop fact files older than the 300 most recent
+    # keep the cache small: drop fact files older than the 500 most recent
     fs = sorted(glob.glob(os.path.join(CACHE, "facts-*.json")), key=os.path.getmtime)
-    for f in fs[:-300]:
+    for f in fs[:-500]:
         try:
             os.remove(f)
         except OSError:
